@@ -1,5 +1,6 @@
 import LicenseExpr.Lemmas.Order
 import LicenseExpr.Lemmas.Atoms
+import LicenseExpr.Lemmas.Rewrite
 import LicenseExpr.Model.Api
 /-!
 # C08 — equivalence and containment obey their algebraic laws
@@ -19,6 +20,15 @@ theorem C08_sound (a b : Expr Atom) (h : equivE a b = true) (v : Atom → Bool) 
       show eval v (simplifyE b) = eval v b from simp_eval _ v b] at this
   exact this
 
+/-- **C08**: … is True for any two expressions related by commutativity, associativity, repetition or
+    single-license absorption (`Rw`: the congruence these generate, at any depth, in any combination) … -/
+theorem C08_rewrite (a b : Expr Atom) (h : Rw a b) (hw : WFargs a) : equivE a b = true :=
+  rw_simp _ (ltE_asymm ltAtom (fun _ _ => strLt_asymm _ _)) h hw
+
+/-- … and is transitive, so it is an equivalence relation. -/
+theorem C08_trans (a b c : Expr Atom) (h1 : equivE a b = true) (h2 : equivE b c = true) : equivE a c = true :=
+  eqE_trans _ _ _ h1 h2
+
 /-- the answer is a function of the two expressions alone: no Licensing, no table appears in it -/
 theorem C08_instance (a b : Expr Atom) : equivE a b = eqE (simp (ltE ltAtom) a) (simp (ltE ltAtom) b) := rfl
 
@@ -34,6 +44,71 @@ theorem C08_contains_refl (a : Expr Atom) : containsTop a a = true := by
     intro y hy
     simp only [memE, List.any_eq_true]
     exact ⟨y, hy, eqE_refl y⟩
+
+/-- `x in t` gives the same answer when either side is replaced by an `==` expression -/
+theorem containsE_congr (t t' x x' : Expr Atom) (ht : eqE t t' = true) (hx : eqE x x' = true) :
+    containsE t x = containsE t' x' := by
+  suffices ∀ (t t' x x' : Expr Atom), eqE t t' = true → eqE x x' = true → containsE t x = true → containsE t' x' = true by
+    rw [Bool.eq_iff_iff]
+    exact ⟨this t t' x x' ht hx, this t' t x' x (eqE_symm_imp _ _ ht) (eqE_symm_imp _ _ hx)⟩
+  intro t t' x x' ht hx h
+  cases t with
+  | atom a => simp [containsE] at h
+  | node o ts =>
+    cases t' with
+    | atom a => rw [eqE_node_atom] at ht; cases ht
+    | node o' ts' =>
+      obtain ⟨rfl, _⟩ := (eqE_node_iff _ _ _ _).mp ht
+      have hs := (eqE_node_setEq _ _ _).mp ht
+      simp only [containsE, Bool.or_eq_true] at h ⊢
+      rcases h with h | h
+      · left; exact memE_subE _ hs.1 (memE_congr _ _ _ hx h)
+      · right
+        cases x with
+        | atom a => simp at h
+        | node ox xs =>
+          cases x' with
+          | atom a => rw [eqE_node_atom] at hx; cases hx
+          | node ox' xs' =>
+            obtain ⟨rfl, _, hx2⟩ := (eqE_node_iff _ _ _ _).mp hx
+            simp only [Bool.and_eq_true, beq_iff_eq, List.all_eq_true] at h ⊢
+            refine ⟨h.1, ?_⟩
+            intro y hy
+            obtain ⟨z, hz, hyz⟩ := hx2 y hy
+            exact memE_subE _ hs.1 (memE_congr _ _ _ (eqE_symm_imp _ _ hyz) (h.2 z hz))
+
+/-- **C08**: `contains` gives the same answer when either argument is replaced by an equivalent expression. -/
+theorem C08_contains_congr (a a' b b' : Expr Atom) (ha : equivE a a' = true) (hb : equivE b b' = true) :
+    containsTop a b = containsTop a' b' := by
+  unfold equivE at ha hb
+  unfold containsTop
+  cases h1 : simplifyE a with
+  | atom x =>
+    cases h1' : simplifyE a' with
+    | node o ts => rw [h1, h1', eqE_atom_node] at ha; cases ha
+    | atom x' =>
+      rw [h1, h1', eqE_atom_atom] at ha; subst ha
+      cases h2 : simplifyE b with
+      | atom y =>
+        cases h2' : simplifyE b' with
+        | atom y' => rw [h2, h2', eqE_atom_atom] at hb; subst hb; rfl
+        | node o ts => rw [h2, h2', eqE_atom_node] at hb; cases hb
+      | node o ts =>
+        cases h2' : simplifyE b' with
+        | atom y' => rw [h2, h2', eqE_node_atom] at hb; cases hb
+        | node o' ts' => rfl
+  | node o ts =>
+    cases h1' : simplifyE a' with
+    | atom x' => rw [h1, h1', eqE_node_atom] at ha; cases ha
+    | node o' ts' =>
+      simp only []
+      rw [h1, h1'] at ha
+      exact containsE_congr _ _ _ _ ha hb
+
+/-- with C08_rewrite: `contains` does not change when an argument is rewritten -/
+theorem C08_contains_rewrite (a a' b b' : Expr Atom) (ha : Rw a a') (hb : Rw b b') (hwa : WFargs a) (hwb : WFargs b) :
+    containsTop a b = containsTop a' b' :=
+  C08_contains_congr a a' b b' (C08_rewrite a a' ha hwa) (C08_rewrite b b' hb hwb)
 
 /-- **C08**: a "license WITH exception" contains each of its two parts. -/
 theorem C08_with_parts (l e : Sym) :
